@@ -1,7 +1,7 @@
 #!/usr/bin/env python3
 import os
 HERE = os.path.dirname(os.path.abspath(__file__))
-VARS = ["ReadyCheckOnce", "RestartAll", "DrainCalls", "GracefulRepliesEarly", "IgnoreTimeout", "ForcedWaits", "LifoQueue", "DrainOnlyAtStop"]
+VARS = ["ReadyCheckOnce", "RestartAll", "DrainCalls", "GracefulRepliesEarly", "IgnoreTimeout", "ForcedWaits", "LifoQueue", "DrainOnlyAtStop", "ErrKeepsPolling"]
 INVS = "C07_Fifo C07_AllAccounted C01_DrainReleases"
 
 
@@ -37,4 +37,5 @@ cfg("NEG_worker_GracefulRepliesEarly", 1, 1, 0, 0, 4, 1, 2, flip=["GracefulRepli
 cfg("NEG_worker_IgnoreTimeout", 1, 1, 0, 0, 4, 1, 2, flip=["IgnoreTimeout"], spec="FairSpec", props="C06w_StopAnswered", invs="")
 cfg("NEG_worker_ForcedWaits", 1, 1, 0, 0, 4, 1, 2, flip=["ForcedWaits"])
 cfg("NEG_worker_DrainOnlyAtStop", 1, 2, 0, 0, 4, 1, 2, flip=["DrainOnlyAtStop"])
+cfg("NEG_worker_ErrKeepsPolling", 2, 1, 2, 0, 0, 0, 2, flip=["ErrKeepsPolling"])
 print("worker configs written")
